@@ -15,8 +15,8 @@ import json, os, re, shutil, subprocess, sys
 ENV = dict(os.environ, GOFLAGS="-mod=mod", GOPROXY="off", GOSUMDB="off", GOTOOLCHAIN="local")
 WORK = "/tmp/sv/work"
 SEEDROOT = os.environ.get("SEEDROOT", "/tmp/seed")   # round 1: /tmp/seed (tags a, b); round 2: /tmp/seed2 (tags c, d)
-TAGMAP = {"/tmp/seed": {"a": "a", "b": "b"}, "/tmp/seed2": {"a": "c", "b": "d"}, "/tmp/seed3": {"a": "e", "b": "f"}, "/tmp/seed4": {"a": "g", "b": "h"}, "/tmp/seed5": {"a": "i", "b": "j"}, "/tmp/seed6": {"a": "k", "b": "l"}, "/tmp/seed7": {"a": "m", "b": "n"}, "/tmp/seed8": {"a": "o", "b": "p"}, "/tmp/seed9": {"a": "q", "b": "r"}, "/tmp/seed10": {"a": "s", "b": "t"}, "/tmp/seed11": {"a": "u", "b": "v"}, "/tmp/seed12": {"a": "w", "b": "x"}}[SEEDROOT]
-EXTRA = {"C01w": [], "C02w": [], "C03w": [], "C04w": [], "C05w": [], "C06w": [], "C07w": [], "C08w": [], "C09w": [], "C10w": [], "C11w": [], "C12w": [], "C13w": [], "C14w": [], "C15w": [], "C16w": [], "C17w": [], "C18w": [], "C19w": [], "C20w": [], "C02u": [], "C04u": [], "C06u": [], "C08u": [], "C09u": [], "C11u": [], "C14u": [], "C17u": [], "C01s": ["C08"], "C03s": [], "C05s": ["C02"], "C07s": [], "C10s": ["C03"], "C12s": [], "C13s": ["C12"], "C15s": [], "C16s": [], "C18s": [], "C19s": [], "C20s": [], "C11c": [], "C01c": ["C06", "C08"], "C01d": ["C06", "C08"], "C05c": ["C02", "C03"], "C05d": ["C02", "C03"], "C08c": ["C01", "C09"], "C08d": ["C01", "C09"], "C09c": ["C08", "C10"], "C09d": ["C08", "C10"],
+TAGMAP = {"/tmp/seed": {"a": "a", "b": "b"}, "/tmp/seed2": {"a": "c", "b": "d"}, "/tmp/seed3": {"a": "e", "b": "f"}, "/tmp/seed4": {"a": "g", "b": "h"}, "/tmp/seed5": {"a": "i", "b": "j"}, "/tmp/seed6": {"a": "k", "b": "l"}, "/tmp/seed7": {"a": "m", "b": "n"}, "/tmp/seed8": {"a": "o", "b": "p"}, "/tmp/seed9": {"a": "q", "b": "r"}, "/tmp/seed10": {"a": "s", "b": "t"}, "/tmp/seed11": {"a": "u", "b": "v"}, "/tmp/seed12": {"a": "w", "b": "x"}, "/tmp/seed13": {"a": "y", "b": "z"}}[SEEDROOT]
+EXTRA = {"C01y": [], "C02y": [], "C03y": [], "C04y": [], "C05y": [], "C06y": [], "C07y": [], "C08y": [], "C09y": [], "C10y": [], "C11y": [], "C12y": [], "C13y": [], "C14y": [], "C15y": [], "C16y": [], "C17y": [], "C18y": [], "C19y": [], "C20y": [], "C01w": [], "C02w": [], "C03w": [], "C04w": [], "C05w": [], "C06w": [], "C07w": [], "C08w": [], "C09w": [], "C10w": [], "C11w": [], "C12w": [], "C13w": [], "C14w": [], "C15w": [], "C16w": [], "C17w": [], "C18w": [], "C19w": [], "C20w": [], "C02u": [], "C04u": [], "C06u": [], "C08u": [], "C09u": [], "C11u": [], "C14u": [], "C17u": [], "C01s": ["C08"], "C03s": [], "C05s": ["C02"], "C07s": [], "C10s": ["C03"], "C12s": [], "C13s": ["C12"], "C15s": [], "C16s": [], "C18s": [], "C19s": [], "C20s": [], "C11c": [], "C01c": ["C06", "C08"], "C01d": ["C06", "C08"], "C05c": ["C02", "C03"], "C05d": ["C02", "C03"], "C08c": ["C01", "C09"], "C08d": ["C01", "C09"], "C09c": ["C08", "C10"], "C09d": ["C08", "C10"],
          "C06c": ["C01", "C07"], "C06d": ["C01", "C07"], "C07c": ["C06", "C01"], "C07d": ["C06", "C01"], "C10c": ["C09"], "C10d": ["C09"], "C12c": ["C13"], "C12d": ["C13"], "C13c": ["C12", "C15"], "C13d": ["C12", "C15"],
          "C14c": ["C15"], "C14d": ["C15"], "C15c": ["C14", "C13"], "C15d": ["C14", "C13"], "C02c": ["C05"], "C02d": ["C05"], "C03c": ["C05"], "C03d": ["C05"], "C04c": ["C16"], "C04d": ["C16"], "C16c": ["C04", "C17"], "C16d": ["C04", "C17"],
          "C17c": ["C16"], "C17d": ["C16"], "C18c": ["C09", "C10"], "C18d": ["C09", "C10"],"C01b": ["C10", "C05"], "C05b": ["C10", "C01"], "C09b": ["C10"], "C06b": ["C01"], "C15b": ["C06", "C07"], "C02a": ["C05"], "C05a": ["C02"], "C03a": ["C05"]}
